@@ -152,6 +152,53 @@ def main():
               flush=True)
 
 
+MU_MUTATIONS = {
+    'mu-count-ge-1': ("            and len(etas & statements[:i].full_expression(s.expression).free_symbols) == 1\n",
+                      "            and len(etas & statements[:i].full_expression(s.expression).free_symbols) >= 1\n"),
+    'mu-found-test-dropped': ("            s.symbol not in found\n            and not etas", "            not etas"),
+    'mu-found-symbol-only': ("            found.update(s.free_symbols)\n", "            found.add(s.symbol)\n"),
+    'mu-offset-dropped': ("            insertion_ind = offset + old_ind\n", "            insertion_ind = old_ind\n"),
+    'mu-skip-rule-dropped': ("        if mu in assignment.expression.free_symbols:\n", "        if False:\n"),
+    'mu-index-off-by-one': ("        mu = Expr.symbol(f'mu_{index[eta]}')\n", "        mu = Expr.symbol(f'mu_{index[eta] + 1}')\n"),
+    'mu-order-swapped': ("                + Assignment.create(mu, mu_expr)\n                + Assignment.create(assignment.symbol, new_def)\n",
+                         "                + Assignment.create(assignment.symbol, new_def)\n                + Assignment.create(mu, mu_expr)\n"),
+    'mu-before-odes-dropped': ("    statements = model.statements.before_odes\n    etas = {Expr.symbol(eta)", "    statements = model.statements\n    etas = {Expr.symbol(eta)"),
+}
+
+
+def mu_mutations():
+    """Mutations of mu_reference_model / _find_eta_assignments against the modelled stream (tags 50-54)."""
+    for tag, (k, (old, new)) in enumerate(MU_MUTATIONS.items()):
+        MUTATIONS[k] = ('expressions.py', old, new, ['mu_reference_model'])
+        mods = mods_for(k, f'mm{tag}')
+        ctx = Ctx('C07', 'quick', 0)
+        specs, verdicts = c07.mu_oracle(ctx, 150, mods=mods, label=f'mumut{tag}')
+        cnt = collections.Counter(t for v in verdicts for t in set(v) if t in (50, 51, 52, 53))
+        caught = bool(cnt)
+        print(f"{'CAUGHT' if caught else 'MISSED'} {k}: tags {dict(cnt)} raised {ctx.coverage['mu_reference']['raised']}",
+              flush=True)
+
+
+GREEK_MUTATIONS = {
+    'greek-theta-start-0': ("    for i, theta in enumerate(get_thetas(model), start=1):\n", "    for i, theta in enumerate(get_thetas(model), start=0):\n"),
+    'greek-sigma-loop-dropped': ("            subs[elt] = Expr.symbol(f\"sigma_{subscript}\")\n", "            pass\n"),
+    'greek-row-col-swapped': ("            subscript = get_2d_subscript(elt, row + 1, col + 1, named_subscripts)\n            subs[elt] = Expr.symbol(f\"sigma_{subscript}\")\n",
+                              "            subscript = get_2d_subscript(elt, col + 1, row + 1, named_subscripts)\n            subs[elt] = Expr.symbol(f\"sigma_{subscript}\")\n"),
+    'greek-eps-named-eta': ("        subs[Expr.symbol(epsilon)] = Expr.symbol(f\"epsilon_{subscript}\")\n", "        subs[Expr.symbol(epsilon)] = Expr.symbol(f\"eta_{subscript}\")\n"),
+}
+
+
+def greek_mutations():
+    for tag, (k, (old, new)) in enumerate(GREEK_MUTATIONS.items()):
+        MUTATIONS[k] = ('expressions.py', old, new, ['greekify_model'])
+        mods = mods_for(k, f'mg{tag}')
+        ctx = Ctx('C07', 'quick', 0)
+        c07.greek_oracle(ctx, 10, greekify=mods['greekify_model'])
+        st = ctx.coverage['greekify_table']
+        caught = bool(ctx.broken) or st['not_injective_on_model_names'] or bool(ctx.violations)
+        print(f"{'CAUGHT' if caught else 'MISSED'} {k}: table disagreements {len(ctx.broken)} {st}", flush=True)
+
+
 def extra():
     """Mutations seen only by the oracle-only streams."""
     import pharmpy.modeling as pm
@@ -181,5 +228,9 @@ def extra():
 if __name__ == '__main__':
     if len(sys.argv) > 2 and sys.argv[2] == 'extra':
         extra()
+    elif len(sys.argv) > 2 and sys.argv[2] == 'mu':
+        mu_mutations()
+    elif len(sys.argv) > 2 and sys.argv[2] == 'greek':
+        greek_mutations()
     else:
         main()
